@@ -40,7 +40,7 @@ type c40Prog struct {
 }
 
 func c40Progs() []c40Prog {
-	d := filepath.Join(os.Getenv("VERIF_SCRATCH"), "c40")
+	d := filepath.Join(os.Getenv("VERIF_SCRATCH"), fmt.Sprintf("c40-%d", os.Getpid())) // per process: workers run concurrently
 	os.MkdirAll(d, 0o755)
 	os.WriteFile(filepath.Join(d, "in"), []byte("l1\nl2\n"), 0o644)
 	f := func(n string) string { return filepath.Join(d, n) }
